@@ -140,6 +140,16 @@ def impl_rows(world: E.World, root_obj):
                         want = [h(o) for o in unf() if f(o)]
                         if got != want:
                             problems.append({"node": h(n), "relation": rel, "filter": name, "filtered": got, "restricted": want})
+                    if isinstance(n, TagNode):
+                        # the traversers take filters too: the unfiltered traversal restricted to matching nodes
+                        for tname, kw in (("bf", dict(from_left=True, depth_first=False, from_top=True)),
+                                          ("df", dict(from_left=True, depth_first=True, from_top=True)),
+                                          ("post", dict(from_left=True, depth_first=True, from_top=False))):
+                            tr = get_traverser(**kw)
+                            got = hs(tr(n, f))
+                            want = [h(o) for o in tr(n) if f(o)]
+                            if got != want:
+                                problems.append({"node": h(n), "relation": "traverser " + tname, "filter": name, "filtered": got, "restricted": want})
                     ff = n.fetch_following_sibling(f)
                     want = next((o for o in n.iterate_following_siblings() if f(o)), None)
                     if ff is not want:
